@@ -643,74 +643,73 @@ Proof.
   apply Nat.eqb_eq in Ereq. exact (Hbad sh E1 Ereq).
 Qed.
 
-(* ---------- zipped dimensions (for MapSpecs without repeated names / indices inside one array) ---------- *)
-Definition plain_specs (fs : list raw_func) : Prop :=
-  forall f m, In f fs -> rspec f = Some m ->
-    wf_decl m = true /\ forallb nodup_axes (ins m) = true /\ NoDup (map aname (ins m)) /\ NoDup (map aname (outs m)).
+(* ---------- zipped dimensions ---------- *)
+(* what a successful run of the loop of MapSpec.shape implies: for every output index that some input carries, all
+   inputs that carry it report the same dimension (_get_common_dim) *)
+Lemma mapM_all_ok {A B} (k : A -> result B) l r : mapM k l = Ok r -> forall x, In x l -> exists y, k x = Ok y /\ In y r.
+Proof. intros H x Hx. exact (ListFacts.mapM_ok_in k l r x H Hx). Qed.
 
-Lemma restrict_keys_NoDup {V} (d : list (str * V)) names : NoDup names -> NoDup (map fst (restrict d names)).
+Lemma common_dim_all ish x l d :
+  common_dim ish x l = Ok d -> forall a, In a l -> get_dim ish x a = Ok d.
 Proof.
-  unfold restrict. induction names as [|n names IH]; intros H; [constructor|]. inversion H; subst. cbn [flat_map].
-  destruct (dict_get d n) as [v|]; cbn; [|now apply IH]. constructor; [|now apply IH].
-  intros Hin. apply H2. clear -Hin. induction names as [|n' names IH']; [destruct Hin|]. cbn [flat_map] in Hin.
-  destruct (dict_get d n'); cbn in Hin; [destruct Hin as [->|Hin]; [now left|right; now apply IH']|right; now apply IH'].
+  unfold common_dim. destruct (mapM (get_dim ish x) l) as [dims|e] eqn:M; cbn [bind]; [|discriminate].
+  destruct dims as [|d0 rest]; [discriminate|]. destruct (forallb (Nat.eqb d0) rest) eqn:E; [|discriminate].
+  intros H a Ha. injection H as <-. destruct (mapM_all_ok _ _ _ M a Ha) as [y [Hy Hin]]. rewrite Hy. f_equal.
+  destruct Hin as [<-|Hin]; [reflexivity|]. rewrite forallb_forall in E. symmetry. now apply Nat.eqb_eq, E.
 Qed.
 
-Lemma carriers_In m x a p : In (a, p) (carriers m x) -> In a (ins m) /\ nth_error (axes a) p = Some (Some x).
+Lemma go_shape_common m ish int o0 : forall axs k r,
+  go_shape m ish int o0 axs k = Ok r ->
+  forall x a b, In (Some x) axs -> In a (ins m) -> In b (ins m) ->
+    mem_str x (indices a) = true -> mem_str x (indices b) = true ->
+    exists d, get_dim ish x a = Ok d /\ get_dim ish x b = Ok d.
 Proof.
-  unfold carriers. intros H. apply in_flat_map in H as [a' [Ha' H]]. apply in_flat_map in H as [[k ax] [Hk H]].
-  cbn [snd fst] in H. destruct ax as [y|]; [|destruct H]. destruct (str_eqb x y) eqn:E; [|destruct H].
-  destruct H as [H|[]]. injection H as <- <-. apply str_eqb_eq in E as <-.
-  apply in_combine_seq in Hk as [_ Hk]. rewrite Nat.sub_0_r in Hk. auto.
-Qed.
-
-Lemma all_equal_head (d : option nat) rest y :
-  forallb (opt_eqb Nat.eqb d) rest = true -> In y (d :: rest) -> y = d.
-Proof.
-  intros H [<-|Hy]; [reflexivity|]. rewrite forallb_forall in H. specialize (H y Hy).
-  destruct d as [a|], y as [b|]; cbn in H; try discriminate; [|reflexivity]. apply Nat.eqb_eq in H. now subst.
+  induction axs as [|ax t IH]; intros k r H x a b Hx Ha Hb Hxa Hxb; [destruct Hx|].
+  destruct ax as [y|]; [|discriminate]. cbn [go_shape] in H.
+  set (relevant := filter (fun c => mem_str y (indices c)) (ins m)) in *.
+  destruct Hx as [Heq|Hx].
+  - injection Heq as ->.
+    assert (Ra : In a relevant) by (apply filter_In; auto). assert (Rb : In b relevant) by (apply filter_In; auto).
+    destruct relevant as [|c rel] eqn:Er; [destruct Ra|]. rewrite <- Er in *.
+    destruct (common_dim ish x relevant) as [d|e] eqn:C; cbn [bind] in H; [|discriminate].
+    exists d. split; now apply (common_dim_all ish x relevant).
+  - destruct relevant as [|c rel].
+    + destruct (dict_get int (aname o0)) as [iv|]; [|discriminate]. destruct (nth_error iv k); [|discriminate].
+      destruct (go_shape m ish int o0 t (S k)) as [r'|e] eqn:G; cbn [bind] in H; [|discriminate].
+      exact (IH _ _ G x a b Hx Ha Hb Hxa Hxb).
+    + destruct (common_dim ish y (c :: rel)); cbn [bind] in H; [|discriminate].
+      destruct (go_shape m ish int o0 t k) as [r'|e] eqn:G; cbn [bind] in H; [|discriminate].
+      exact (IH _ _ G x a b Hx Ha Hb Hxa Hxb).
 Qed.
 
 Lemma map_shapes_zip q internal final :
-  plain_specs (q_funcs q) -> map_shapes q internal = Ok final -> ~ F_zip q.
+  map_shapes q internal = Ok final -> ~ F_zip q.
 Proof.
-  intros Hplain Hm [f [m [x [a [pa [b [pb [da [db [Hf [Hs [Hca [Hcb [Hra [Hrb [Hda [Hdb Hne]]]]]]]]]]]]]]]]].
-  destruct (Hplain f m Hf Hs) as [Hwf [Hnda [Hndi Hndo]]].
+  intros Hm [f [m [x [a [pa [b [pb [da [db [Hf [Hs [Hx [Ha [Hb [Hpa [Hpb [Hra [Hrb [Hda [Hdb Hne]]]]]]]]]]]]]]]]]]]].
   destruct (map_shapes_state q internal final f Hm Hf) as [st [st' [Hinv Hstep]]].
   unfold func_shape in Hstep. rewrite Hs in Hstep.
   set (ish := restrict st (input_names m)) in *. set (int := restrict internal (output_names m)) in *.
   destruct (shape m ish int) as [r|e] eqn:Eshape; cbn [bind] in Hstep; [|discriminate].
-  destruct (shape_correct m ish int Hwf Hnda Hndi) as [_ Hrej].
-  { now apply restrict_keys_NoDup. } { now apply restrict_keys_NoDup. }
-  destruct (shape_request_ok m ish int) eqn:Ereq; [|destruct (Hrej eq_refl) as [e He]; congruence].
-  rewrite shape_request_ok_split in Ereq. apply andb_true_iff in Ereq as [Ereq _].
-  apply andb_true_iff in Ereq as [_ Ereq]. rewrite forallb_forall in Ereq.
-  destruct (carriers_In _ _ _ _ Hca) as [Ha Hxa]. destruct (carriers_In _ _ _ _ Hcb) as [Hb Hxb].
-  (* x is an output index: every input index appears in the outputs of a well-formed MapSpec *)
-  assert (Hx : In x (output_indices m)).
-  { unfold wf_decl in Hwf. unfold output_indices. destruct (outs m) as [|o0 rest]; [now rewrite andb_false_r in Hwf|].
-    apply andb_true_iff in Hwf as [_ Hwf]. apply andb_true_iff in Hwf as [_ Hwf].
-    rewrite forallb_forall in Hwf. specialize (Hwf a Ha). rewrite forallb_forall in Hwf.
-    apply mem_str_In. apply Hwf. unfold indices. apply somes_In. eapply nth_error_In. exact Hxa. }
-  specialize (Ereq x Hx).
-  destruct (map (dim_at ish) (carriers m x)) as [|d rest] eqn:El.
-  { apply (in_map (dim_at ish)) in Hca. rewrite El in Hca. destruct Hca. }
-  assert (Ea : dim_at ish (a, pa) = d) by (apply (all_equal_head d rest); [assumption|rewrite <- El; now apply in_map]).
-  assert (Eb : dim_at ish (b, pb) = d) by (apply (all_equal_head d rest); [assumption|rewrite <- El; now apply in_map]).
-  assert (G : forall c pc dc, In c (ins m) -> is_root (q_funcs q) (aname c) = true -> dim_of q c pc = Some dc ->
-              dim_at ish (c, pc) = Some dc).
-  { intros c pc dc Hc Hroot Hd. unfold dim_of in Hd. destruct (value_of q (aname c)) as [v|] eqn:Ev; [|discriminate].
+  rewrite shape_unfold in Eshape. destruct (validate_shapes m ish int); cbn [bind] in Eshape; [|discriminate].
+  unfold output_indices in Hx. destruct (outs m) as [|o0 rest]; [destruct Hx|].
+  assert (Hxa : mem_str x (indices a) = true) by (unfold indices; rewrite index_of_mem; now rewrite Hpa).
+  assert (Hxb : mem_str x (indices b) = true) by (unfold indices; rewrite index_of_mem; now rewrite Hpb).
+  destruct (go_shape_common m ish int o0 _ _ _ Eshape x a b) as [d [Ga Gb]]; try assumption.
+  { unfold indices in Hx. now apply somes_In. }
+  assert (G : forall c pc dc, In c (ins m) -> is_root (q_funcs q) (aname c) = true -> index_of x (axes c) = Some pc ->
+              dim_of q c pc = Some dc -> get_dim ish x c = Ok dc).
+  { intros c pc dc Hc Hroot Hp Hd. unfold dim_of in Hd. destruct (value_of q (aname c)) as [v|] eqn:Ev; [|discriminate].
     destruct (Hinv (aname c) v Hroot (spec_input_named _ f m c Hf Hs Hc) Ev) as [sh [E1 E2]].
-    rewrite E1 in Hd. unfold dim_at. cbn [fst snd]. unfold ish.
-    rewrite restrict_get by (unfold input_names; now apply in_map). now rewrite E2. }
-  rewrite (G a pa da Ha Hra Hda) in Ea. rewrite (G b pb db Hb Hrb Hdb) in Eb. congruence.
+    rewrite E1 in Hd. unfold get_dim. rewrite Hp. unfold ish.
+    rewrite restrict_get by (unfold input_names; now apply in_map). rewrite E2, Hd. reflexivity. }
+  rewrite (G a pa da Ha Hra Hpa Hda) in Ga. rewrite (G b pb db Hb Hrb Hpb Hdb) in Gb. congruence.
 Qed.
 
 (* ================================================================== map: soundness, completeness, no effect *)
 Theorem validate_map_sound q :
   validate_map q = Ok tt ->
   ~ F_executor q /\ ~ F_missing_input q /\ ~ F_surplus_input q /\ ~ F_axes (q_funcs q) /\ ~ F_rank q
-  /\ (plain_specs (q_funcs q) -> ~ F_zip q) /\ ~ F_storage q.
+  /\ ~ F_zip q /\ ~ F_storage q.
 Proof.
   intros H. destruct (validate_map_checks q H) as [He [Hi [Ha [Hs [_ Hm]]]]].
   destruct (complete_inputs_sound q Hi) as [N2 N3].
@@ -722,20 +721,20 @@ Proof.
   - exact N3.
   - now apply consistent_axes_sound.
   - exact (map_shapes_rank q _ final Em).
-  - intros Hp. exact (map_shapes_zip q _ final Hp Em).
+  - exact (map_shapes_zip q _ final Em).
   - now apply storage_names_sound.
 Qed.
 
 Corollary validate_map_wellformed q :
-  validate_map q = Ok tt -> plain_specs (q_funcs q) -> WellFormedM q.
+  validate_map q = Ok tt -> WellFormedM q.
 Proof.
-  intros H Hp. destruct (validate_map_sound q H) as [N1 [N2 [N3 [N4 [N5 [N6 N7]]]]]].
+  intros H. destruct (validate_map_sound q H) as [N1 [N2 [N3 [N4 [N5 [N6 N7]]]]]].
   unfold WellFormedM. auto 10.
 Qed.
 
 Theorem validate_map_complete_per_fault q :
   (F_executor q \/ F_missing_input q \/ F_surplus_input q \/ F_axes (q_funcs q) \/ F_rank q \/ F_storage q
-   \/ (plain_specs (q_funcs q) /\ F_zip q)) ->
+   \/ F_zip q) ->
   exists e, validate_map q = Err e.
 Proof.
   intros HF. destruct (result_unit_cases (validate_map q)) as [Hok|Herr]; [|exact Herr].
